@@ -89,6 +89,24 @@
 (* An unstripped file that carries a .gnu_debuglink (home = main, dl # none) *)
 (* names a file with a DIFFERENT payload (PayloadDecoy): debugging            *)
 (* information of its own, in whichever naming/encoding, wins over the link. *)
+(* Link targets that are present but not decodable (strengthening round 4): *)
+(* the file a link names - the debug file behind .gnu_debuglink, the         *)
+(* supplementary file behind .gnu_debugaltlink / .debug_sup, also at the end *)
+(* of a stripped -> debug -> supplementary chain - is written under each of  *)
+(* the bad plans of BadTargetPlans (declared size too big / too small, bad   *)
+(* compression type, bad .zdebug magic / size / length) or is not an object  *)
+(* file at all (`tgt` = "garbage").  The machine reads a link target with    *)
+(* the very actions it uses for the opened file, so a bad target fails       *)
+(* exactly as it does when opened directly (TargetAsDirect: the error the    *)
+(* machine ends with = DirectErr of the target, whenever the target is       *)
+(* reached; BadTargetRejected: a reached target with a bad declared size /   *)
+(* framing is never dropped silently).  A target that is NOT reached (no     *)
+(* loader, links not followed) is never read: the outcome is that of the     *)
+(* opened file alone.  The property fixes the rejection of bad sizes /       *)
+(* framing wherever the data are; it does not say what a target that is no   *)
+(* ELF file yields: "error:notelf" or the opened file's own view without the *)
+(* target (Alternatives) - only those two.  A missing target (the loader has *)
+(* no such file) is a different case (Fail("nofile"), not generated).        *)
 (* Not modelled: phantom bytes; relocation types other than S + A (C09 owns   *)
 (* them; the driver's corpus transforms cover compiler-made relocatable files *)
 (* metamorphically: the view of a re-encoded / split object must equal that  *)
@@ -107,6 +125,7 @@ CONSTANTS ClsLeAll,      \* class / byte-order pairs of the encoding family
           VerFmts,       \* DWARF version / format pairs of the encoding family
           Plans,         \* encoding plans of the encoding family
           Families,      \* subset of {"enc", "nodwarf", "dlink", "sup", "chain", "rlink"}
+          BadTargetPlans,\* the bad plans a link target (debug file / supplementary file) is written under
           Wide,          \* BOOLEAN: per-section plans in every DWARF flavour (else one per class/byte order); questions after every
                          \* encoding of the supplementary file (else after its plain encoding)
           MaxQueries     \* how many questions the client asks the loaded object (< 8; 0: none)
@@ -337,9 +356,15 @@ RelocSecs(c, secs) ==              \* secs: the debug sections of the carrier, i
         \* the GNU tools name a relocation section after the (possibly renamed) section it applies to
         Sec((IF RelUsesAddend(c) THEN DotRela ELSE DotRel) \o infoName, N(IF RelUsesAddend(c) THEN ShtRela ELSE ShtRel), N(ShfInfoLink), Z, ent, N(Len(ent)),
             N(symIx), N(IxOfName(secs, infoName)), N(c.cls \div 8), N(Len(ent))) >>
-File(secs) == [present |-> TRUE, secs |-> secs, etype |-> 3]
-RelFile(secs) == [present |-> TRUE, secs |-> secs, etype |-> 1]          \* ET_REL
-NoFile == [present |-> FALSE, secs |-> <<>>, etype |-> 0]
+File(secs) == [present |-> TRUE, secs |-> secs, etype |-> 3, raw |-> <<>>]
+RelFile(secs) == [present |-> TRUE, secs |-> secs, etype |-> 1, raw |-> <<>>]          \* ET_REL
+NoFile == [present |-> FALSE, secs |-> <<>>, etype |-> 0, raw |-> <<>>]
+\* a file that is not an object file: "not an ELF file\n" x 3 (gABI: e_ident starts with 0x7f 'E' 'L' 'F')
+GarbageBytes == LET t == <<110, 111, 116, 32, 97, 110, 32, 69, 76, 70, 32, 102, 105, 108, 101, 10>> IN t \o t \o t
+Garbage == [present |-> TRUE, secs |-> <<>>, etype |-> 0, raw |-> GarbageBytes]
+IsElf(f) == f.raw = <<>>
+\* the file a configuration's `tgt` speaks about: the supplementary file if there is one, else the file behind the debug link
+TgtRole(c) == IF c.sup \in {"altlink", "debug_sup"} THEN "sup" ELSE IF c.dl # "none" /\ c.home = "linked" THEN "linked" ELSE "none"
 FilesOf(c) ==
   LET dbg == SecsOf(IF c.plan = "none" THEN NoPayload(c) ELSE PayloadStored(c), c.plan, c)
       carrier == IF c.rel = "none" THEN dbg ELSE dbg \o RelocSecs(c, dbg)                            \* the file that carries the debug sections
@@ -348,8 +373,9 @@ FilesOf(c) ==
       link == IF c.dl = "none" THEN <<>> ELSE <<LinkSec(c)>>
   IN [main |-> IF c.home = "main" THEN Car(carrier \o link) ELSE File(stripped \o link),
       \* an unstripped file with a link: the file the link names holds ANOTHER payload, plainly
-      linked |-> IF c.dl = "none" THEN NoFile ELSE IF c.home = "linked" THEN Car(carrier) ELSE File(SecsOf(PayloadDecoy(c), "plain", c)),
-      sup |-> IF c.sup \in {"altlink", "debug_sup"} THEN File(SecsOf(PayloadS(c), c.supplan, c)) ELSE NoFile]
+      linked |-> IF c.dl = "none" THEN NoFile ELSE IF c.tgt = "garbage" /\ TgtRole(c) = "linked" THEN Garbage
+                 ELSE IF c.home = "linked" THEN Car(carrier) ELSE File(SecsOf(PayloadDecoy(c), "plain", c)),
+      sup |-> IF c.sup \in {"altlink", "debug_sup"} THEN (IF c.tgt = "garbage" THEN Garbage ELSE File(SecsOf(PayloadS(c), c.supplan, c))) ELSE NoFile]
 ImageOf(f, c) == [Im0 EXCEPT !.cls = c.cls, !.le = c.le, !.machine = MachOf(c), !.secs = f.secs, !.etype = N(f.etype)]
 
 (* --------------------------- configurations ---------------------------- *)
@@ -360,7 +386,8 @@ VerFmt4 == {<<3, 32>>, <<4, 32>>, <<4, 64>>, <<5, 64>>, <<5, 32>>}
 C0 == [fam |-> "", cls |-> 64, le |-> TRUE, ver |-> 4, fmt |-> 32, line |-> TRUE, eh |-> TRUE, plan |-> "plain", dl |-> "none", home |-> "main",
        sup |-> "none", supplan |-> "plain", loader |-> FALSE, follow |-> TRUE, mix |-> <<>>,
        rel |-> "none",       \* "rel": the carrier is a relocatable object with a relocation on .debug_info
-       reloc |-> TRUE]       \* the client's relocate_dwarf_sections option
+       reloc |-> TRUE,       \* the client's relocate_dwarf_sections option
+       tgt |-> "elf"]        \* "garbage": the link target (TgtRole) is present but is not an object file
 \* the link families tie version/format to the container so that both DWARF flavours occur without another factor
 VerOf(cl, sup) == IF sup = "debug_sup" THEN 5 ELSE IF sup = "altlink" THEN 4 ELSE IF cl[1] = 64 THEN 5 ELSE 4
 FmtOf(cl) == IF cl[1] = 64 /\ cl[2] THEN 64 ELSE 32
@@ -389,18 +416,38 @@ DlinkConfigs == {[C0 EXCEPT !.fam = "dlink", !.cls = cl[1], !.le = cl[2], !.ver 
                 \cup {[C0 EXCEPT !.fam = "dlink", !.cls = cl[1], !.le = cl[2], !.ver = VerOf(cl, "none"), !.fmt = FmtOf(cl), !.plan = pl,
                                  !.home = "main", !.dl = "ok", !.loader = TRUE, !.follow = fo] :
                         cl \in ClsLeLinks, pl \in {"z_mixed", "gabi_info", "gabi_str"}, fo \in BOOLEAN}
+                \* the debug file is present (right CRC) but not decodable
+                \cup {[C0 EXCEPT !.fam = "dlink", !.cls = cl[1], !.le = cl[2], !.ver = VerOf(cl, "none"), !.fmt = FmtOf(cl), !.plan = pl,
+                                 !.home = "linked", !.dl = "ok", !.loader = lo, !.follow = fo] :
+                        cl \in ClsLeLinks, pl \in BadTargetPlans, lo \in BOOLEAN, fo \in BOOLEAN}
+                \cup (IF BadTargetPlans = {} THEN {} ELSE
+                      {[C0 EXCEPT !.fam = "dlink", !.cls = cl[1], !.le = cl[2], !.ver = VerOf(cl, "none"), !.fmt = FmtOf(cl),
+                                  !.home = "linked", !.dl = "ok", !.loader = lo, !.follow = fo, !.tgt = "garbage"] :
+                         cl \in ClsLeLinks, lo \in BOOLEAN, fo \in BOOLEAN})
                 \* the plain, link-free encoding of the same payloads (the reference of the family)
                 \cup {[C0 EXCEPT !.fam = "dlink", !.cls = cl[1], !.le = cl[2], !.ver = VerOf(cl, "none"), !.fmt = FmtOf(cl), !.eh = eh] :
                         cl \in ClsLeLinks, eh \in BOOLEAN}
 SupConfigs == {[C0 EXCEPT !.fam = "sup", !.cls = cl[1], !.le = cl[2], !.ver = VerOf(cl, su), !.fmt = FmtOf(cl), !.plan = pl, !.sup = su, !.supplan = sp,
                           !.loader = lo, !.follow = fo] :
                  cl \in ClsLeLinks, su \in {"altlink", "debug_sup"}, pl \in {"plain", "gabi", "z"}, sp \in {"plain", "gabi", "z"}, lo \in BOOLEAN, fo \in BOOLEAN}
+              \* the supplementary file is present but not decodable
+              \cup {[C0 EXCEPT !.fam = "sup", !.cls = cl[1], !.le = cl[2], !.ver = VerOf(cl, su), !.fmt = FmtOf(cl), !.sup = su, !.supplan = sp,
+                               !.loader = lo, !.follow = fo] :
+                      cl \in ClsLeLinks, su \in {"altlink", "debug_sup"}, sp \in BadTargetPlans, lo \in BOOLEAN, fo \in BOOLEAN}
+              \cup (IF BadTargetPlans = {} THEN {} ELSE
+                    {[C0 EXCEPT !.fam = "sup", !.cls = cl[1], !.le = cl[2], !.ver = VerOf(cl, su), !.fmt = FmtOf(cl), !.sup = su,
+                                !.loader = lo, !.follow = fo, !.tgt = "garbage"] :
+                       cl \in ClsLeLinks, su \in {"altlink", "debug_sup"}, lo \in BOOLEAN, fo \in BOOLEAN})
               \cup {[C0 EXCEPT !.fam = "sup", !.cls = cl[1], !.le = cl[2], !.ver = 5, !.fmt = FmtOf(cl), !.plan = pl, !.sup = "is_sup", !.line = FALSE, !.eh = FALSE,
                                !.loader = lo, !.follow = fo] : cl \in ClsLeLinks, pl \in {"plain", "gabi", "z"}, lo \in BOOLEAN, fo \in BOOLEAN}
 \* stripped file -> debug file -> supplementary file
 ChainConfigs == {[C0 EXCEPT !.fam = "chain", !.cls = cl[1], !.le = cl[2], !.ver = VerOf(cl, su), !.fmt = FmtOf(cl), !.plan = pl, !.home = "linked", !.dl = "ok",
                             !.sup = su, !.loader = lo, !.follow = fo, !.reloc = rc] :
                    cl \in ClsLeLinks, su \in {"altlink", "debug_sup"}, pl \in {"plain", "z"}, lo \in BOOLEAN, fo \in BOOLEAN, rc \in BOOLEAN}
+                \* ... whose last file is not decodable
+                \cup {[C0 EXCEPT !.fam = "chain", !.cls = cl[1], !.le = cl[2], !.ver = VerOf(cl, su), !.fmt = FmtOf(cl), !.home = "linked", !.dl = "ok",
+                                 !.sup = su, !.supplan = sp, !.loader = lo, !.follow = fo] :
+                        cl \in ClsLeLinks, su \in {"altlink", "debug_sup"}, sp \in BadTargetPlans, lo \in BOOLEAN, fo \in BOOLEAN}
 \* a relocatable carrier, opened directly or reached through a link, with and without relocate_dwarf_sections
 RlinkConfigs == {[C0 EXCEPT !.fam = "rlink", !.cls = cl[1], !.le = cl[2], !.ver = VerOf(cl, "none"), !.fmt = FmtOf(cl), !.plan = pl, !.rel = "rel",
                             !.home = hd[1], !.dl = hd[2], !.loader = TRUE, !.follow = fo, !.reloc = rc] :
@@ -449,6 +496,7 @@ FollowDebugLink ==
   /\ LET lk == ParseDebugLink(SecNamed(files[cur], DotGnuDebuglink).data)   to == Resolve(cfg, lk.filename) IN
      IF to = "nofile" \/ ~files[to].present THEN Fail("nofile")
      ELSE IF lk.crc # Crc32Of(to) THEN Fail("crc")
+     ELSE IF ~IsElf(files[to]) THEN Fail("notelf")
      ELSE cur' = to /\ fl' = TRUE /\ pc' = "open" /\ UNCHANGED <<cfg, files, ix, buf, got, err>>
 Advance(g) == /\ got' = g
               /\ IF ix < Len(Logical) THEN ix' = ix + 1 /\ pc' = "read" ELSE ix' = ix /\ pc' = "links"
@@ -522,6 +570,7 @@ LoadSupplementary ==
      IF cur # "sup" /\ fl /\ cfg.loader /\ sn.p
      THEN LET to == Resolve(cfg, sn.b) IN
           IF to = "nofile" \/ ~files[to].present THEN Fail("nofile")
+          ELSE IF ~IsElf(files[to]) THEN Fail("notelf")
           ELSE cur' = to /\ pc' = "read" /\ ix' = 1 /\ UNCHANGED <<cfg, files, fl, buf, got, err>>
      ELSE pc' = "done" /\ UNCHANGED <<cfg, files, cur, fl, ix, buf, got, err>>
 DebugOnly(g) == [l \in LogSet \ {"eh_frame"} |-> g[l]]
@@ -537,7 +586,7 @@ LoadAll(f) == [l \in LogSet |->
                      ELSE Have(s.data)]
 Loaded == pc = "done" /\ err = "" /\ got.home["info"].p
 \* which configurations are questioned: those with link sections (and a few without, whose answers are all "none")
-QueryOn(c) == \/ c.fam \in {"sup", "chain"} /\ (Wide \/ c.supplan = "plain") /\ c.reloc
+QueryOn(c) == \/ c.fam \in {"sup", "chain"} /\ (Wide \/ c.supplan = "plain") /\ c.reloc /\ c.supplan \in {"plain", "gabi", "z"} /\ c.tgt = "elf"
               \/ c.fam = "enc" /\ ~c.line /\ c.plan \in {"plain", "gabi", "z"}
 \* the machine's answer, from the bytes it loaded
 Answer(q) ==
@@ -565,14 +614,25 @@ Outcome == IF err # "" THEN "error:" \o err
 Followed(c) == c.home = "linked" /\ c.loader /\ c.follow
 BadKind(plan) == CASE plan \in {"gabi_badsize", "gabi_smallsize"} -> "size" [] plan = "gabi_badtype" -> "type" [] plan = "z_badmagic" -> "magic"
                    [] plan \in {"z_badsize", "z_smallsize"} -> "zsize" [] plan = "z_short" -> "zshort" [] OTHER -> ""
-Expect(c) == IF Followed(c) /\ c.dl = "badcrc" THEN "error:crc"
-             ELSE IF c.home = "linked" /\ ~Followed(c) THEN "nodwarf"
-             ELSE IF c.plan = "none" THEN "nodwarf"
-             ELSE IF BadKind(c.plan) # "" THEN "error:" \o BadKind(c.plan)
-             ELSE "loaded"
-ExpectSup(c) == Expect(c) = "loaded" /\ c.sup \in {"altlink", "debug_sup"} /\ c.loader /\ (c.follow \/ c.home = "linked")
-\* acceptable alternatives the property leaves open: an unstripped file with a link whose CRC is wrong
-Alternatives(c) == IF c.home = "main" /\ c.dl = "badcrc" /\ c.loader /\ c.follow THEN {"error:crc"} ELSE {}
+\* ... of the opened file and the debug file behind its link
+Expect0(c) == IF Followed(c) /\ c.dl = "badcrc" THEN "error:crc"
+              ELSE IF Followed(c) /\ c.tgt = "garbage" /\ TgtRole(c) = "linked" THEN "error:notelf"
+              ELSE IF c.home = "linked" /\ ~Followed(c) THEN "nodwarf"
+              ELSE IF c.plan = "none" THEN "nodwarf"
+              ELSE IF BadKind(c.plan) # "" THEN "error:" \o BadKind(c.plan)
+              ELSE "loaded"
+\* the supplementary file is read when the carrier of the link loads, a loader exists and links are followed
+SupReached(c) == Expect0(c) = "loaded" /\ c.sup \in {"altlink", "debug_sup"} /\ c.loader /\ (c.follow \/ c.home = "linked")
+\* ... and then it is read like any other file: what is wrong with it is an error of the whole load
+Expect(c) == IF SupReached(c) /\ c.tgt = "garbage" THEN "error:notelf"
+             ELSE IF SupReached(c) /\ BadKind(c.supplan) # "" THEN "error:" \o BadKind(c.supplan)
+             ELSE Expect0(c)
+ExpectSup(c) == Expect(c) = "loaded" /\ SupReached(c)
+\* acceptable alternatives the property leaves open: an unstripped file with a link whose CRC is wrong; a link target that is
+\* not an object file (the view of the opened file without the target's data)
+Alternatives(c) == IF c.home = "main" /\ c.dl = "badcrc" /\ c.loader /\ c.follow THEN {"error:crc"}
+                   ELSE IF Expect(c) = "error:notelf" THEN {IF TgtRole(c) = "sup" THEN "loaded" ELSE "nodwarf"}
+                   ELSE {}
 \* which file's eh_frame a reader sees: that of the file whose sections were loaded (both carry the same one here)
 
 (* ------------------------------ properties ----------------------------- *)
@@ -609,9 +669,41 @@ DecoyNeverLoaded ==
 BadCrcRejected == pc = "done" => ((err = "crc") <=> (Followed(cfg) /\ cfg.dl = "badcrc"))
 BadSizeRejected == pc = "done" => /\ (cfg.plan \in {"gabi_badsize", "gabi_smallsize"} /\ Expect(cfg) # "nodwarf" => err = "size")
                                   /\ (cfg.plan \in {"z_badsize", "z_smallsize"} /\ Expect(cfg) # "nodwarf" => err = "zsize")
-                                  /\ (err \in {"size", "zsize"} => cfg.plan \in {"gabi_badsize", "gabi_smallsize", "z_badsize", "z_smallsize"})
+                                  /\ (err \in {"size", "zsize"} => \/ cfg.plan \in {"gabi_badsize", "gabi_smallsize", "z_badsize", "z_smallsize"}
+                                                                  \/ (SupReached(cfg) /\ cfg.supplan \in {"gabi_badsize", "gabi_smallsize", "z_badsize", "z_smallsize"}))
 BadFramingRejected == pc = "done" => /\ (cfg.plan \in {"z_badmagic", "z_short", "gabi_badtype"} /\ Expect(cfg) # "nodwarf" => err = BadKind(cfg.plan))
-                                     /\ (err \in {"magic", "zshort", "type", "short", "nofile"} => err = BadKind(cfg.plan))
+                                     /\ (err \in {"magic", "zshort", "type", "short", "nofile"} => err = BadKind(cfg.plan) \/ (SupReached(cfg) /\ err = BadKind(cfg.supplan)))
+\* ---- link targets that are present but not decodable
+\* the error of reading file f directly: the first logical section (in reading order) whose container is broken
+SecErr(f, l) ==
+  LET n == PhysName(f, l) IN
+  IF n = <<>> THEN ""
+  ELSE LET s == SecNamed(f, n)   b == s.data   hs == SizeOf(ChdrF(cfg.cls), cfg.cls)   w == cfg.cls \div 8   at == IF cfg.cls = 32 THEN 5 ELSE 9 IN
+       IF Compressed(s)
+       THEN (IF Len(b) < hs THEN "short"
+             ELSE IF Digits(FixDec(SubSeq(b, 1, 4), cfg.le, FALSE), 4) # <<1, 0, 0, 0>> THEN "type"
+             ELSE IF Len(Inflate(SubSeq(b, hs + 1, Len(b)))) # SmallDec(SubSeq(b, at, at + w - 1), cfg.le, FALSE) THEN "size" ELSE "")
+       ELSE IF IsZName(n)
+       THEN (IF Len(b) <= 12 THEN "zshort" ELSE IF SubSeq(b, 1, 4) # ZlibMagic THEN "magic"
+             ELSE IF Len(Inflate(SubSeq(b, 13, Len(b)))) # SmallDec(SubSeq(b, 5, 12), FALSE, FALSE) THEN "zsize" ELSE "")
+       ELSE ""
+DirectErr(f) == IF ~IsElf(f) THEN "notelf"
+                ELSE LET bad == {i \in 1..Len(Logical) : SecErr(f, Logical[i]) # ""} IN IF bad = {} THEN "" ELSE SecErr(f, Logical[Min(bad)])
+\* is the configuration's link target read at all?
+TgtReached(c) == CASE TgtRole(c) = "sup" -> SupReached(c) [] TgtRole(c) = "linked" -> Followed(c) /\ c.dl = "ok" [] OTHER -> FALSE
+\* reaching a file through a link changes nothing about what is wrong with it: the load ends with the error of opening the
+\* target directly (none if the target is sound); a target that is not reached is not read, its defects do not matter
+TargetAsDirect ==
+  (pc = "done" /\ TgtRole(cfg) # "none") =>
+     /\ (TgtReached(cfg) => err = DirectErr(files[TgtRole(cfg)]))
+     /\ (~TgtReached(cfg) /\ TgtRole(cfg) = "sup" => err = DirectErr(files[IF Followed(cfg) THEN "linked" ELSE "main"]) /\ got.sup = Got0.sup)
+     /\ (~TgtReached(cfg) /\ TgtRole(cfg) = "linked" /\ cfg.dl = "ok" => err = "" /\ ~got.home["info"].p)
+\* a reached target with a bad declared size / bad framing is rejected, never dropped
+BadTargetRejected ==
+  pc = "done" =>
+     /\ (SupReached(cfg) /\ BadKind(cfg.supplan) # "" => err = BadKind(cfg.supplan) /\ DirectErr(files.sup) = BadKind(cfg.supplan))
+     /\ (TgtReached(cfg) /\ cfg.tgt = "garbage" => err = "notelf")
+     /\ (err = "notelf" => cfg.tgt = "garbage" /\ TgtReached(cfg))
 \* the names read back from the image's section-name table decide presence exactly as the writer meant it
 ImgNames(im) == LET ex == ExplicitShdrs(im)   st == StrTab(im) IN {CStrAt(st, ex[i][2].sh_name.n).s : i \in 1..Len(ex)}
 HasByNames(ns, strict) == DotDebugInfo \in ns \/ ZName(DotDebugInfo) \in ns \/ (~strict /\ DotEhFrame \in ns)
@@ -621,7 +713,7 @@ MeantInfo(c, role) == CASE role = "main" -> c.plan # "none" /\ c.home = "main"
 MeantEh(c, role) == role # "sup" /\ c.eh /\ c.sup # "is_sup"
 HasDwarfExact ==
   pc = "open" /\ cur = "main" =>
-    \A role \in {"main", "linked", "sup"} : files[role].present =>
+    \A role \in {"main", "linked", "sup"} : files[role].present /\ IsElf(files[role]) =>
        LET ns == ImgNames(ImageOf(files[role], cfg)) IN
        \A strict \in BOOLEAN : /\ HasByNames(ns, strict) = HasDwarfSecs(files[role], strict)
                                /\ HasByNames(ns, strict) = (MeantInfo(cfg, role) \/ (~strict /\ MeantEh(cfg, role)))
@@ -652,7 +744,9 @@ MeasureNat == Measure >= 0
 (* ------------------------------- emission ------------------------------ *)
 Bit(b) == IF b THEN 1 ELSE 0
 \* key of the images a configuration uses (everything but loader / follow), and of the plain reference of the same payload
-ImgKey(c) == <<c.cls, Bit(c.le), c.ver, c.fmt, Bit(c.line), Bit(c.eh), c.plan, c.dl, c.home, c.sup, c.supplan, c.mix, c.rel>>
+ImgKey(c) == <<c.cls, Bit(c.le), c.ver, c.fmt, Bit(c.line), Bit(c.eh), c.plan, c.dl, c.home, c.sup, c.supplan, c.mix, c.rel, c.tgt>>
+\* class of the link target for reports
+TgtTag(c) == IF c.tgt = "garbage" THEN "/target=not-elf" ELSE IF BadKind(c.supplan) # "" THEN "/target=" \o c.supplan ELSE ""
 \* class of a plan for reports: a per-section plan is named after how .debug_info is stored
 PlanTag(c) == IF c.plan = "mix" THEN "mix.info-" \o c.mix[1] ELSE c.plan
 \* the reference of a relocatable carrier is the plain, link-free object under the same relocate option
@@ -662,13 +756,13 @@ CanonForImages(c) == c.follow /\ c.reloc /\ (c.loader = (c.fam \notin {"enc", "n
 ImgLine(role) ==
   LET im == ImageOf(files[role], cfg)
       lk == SecIx(files[role], DotGnuDebuglink)
-  IN [k |-> "img", key |-> ImgKey(cfg), role |-> role, chunks |-> Chunks(im),
+  IN [k |-> "img", key |-> ImgKey(cfg), role |-> role, chunks |-> IF IsElf(files[role]) THEN Chunks(im) ELSE << <<0, files[role].raw, 1>> >>,
       \* where the CRC-32 of the linked file goes: [offset, width]; empty when the file has no link
       crcslot |-> IF lk = {} THEN <<>> ELSE LET j == CHOOSE j \in lk : TRUE IN <<SecOff(im, j) + Len(files[role].secs[j].data) - 4, 4>>]
 CaseLine ==
   [k |-> "case", fam |-> cfg.fam, img |-> ImgKey(cfg), cls |-> cfg.cls, le |-> cfg.le, ver |-> cfg.ver, fmt |-> cfg.fmt, plan |-> cfg.plan, plantag |-> PlanTag(cfg), mix |-> cfg.mix,
    dl |-> cfg.dl, home |-> cfg.home, sup |-> cfg.sup, supplan |-> cfg.supplan, loader |-> cfg.loader, follow |-> cfg.follow,
-   rel |-> cfg.rel, reloc |-> cfg.reloc,
+   rel |-> cfg.rel, reloc |-> cfg.reloc, tgt |-> cfg.tgt, tgttag |-> TgtTag(cfg),
    isref |-> IsRef(cfg), refkey |-> RefKey(cfg, SupLoaded),
    \* the view
    outcome |-> Outcome, alt |-> Alternatives(cfg), suploaded |-> SupLoaded,
